@@ -35,7 +35,7 @@ pub enum Action {
     Drop { slot: usize },
     Downgrade { src: usize, dst: usize },
     Upgrade { src: usize, dst: usize },
-    Hook { a: usize, it: HItem },
+    Hook { a: usize, its: Vec<HItem> },
     Run { a: usize, r: ROut },
     Auto { a: usize, v: bool },
     Advance { k: u64 },
@@ -110,7 +110,7 @@ pub fn parse(text: &str) -> Vec<Action> {
             "drop" => v.push(Action::Drop { slot: n(1) }),
             "downgrade" => v.push(Action::Downgrade { src: n(1), dst: n(2) }),
             "upgrade" => v.push(Action::Upgrade { src: n(1), dst: n(2) }),
-            "hook" => v.push(Action::Hook { a: n(1), it: hitem(w[2]) }),
+            "hook" => v.push(Action::Hook { a: n(1), its: w[2].split('+').map(hitem).collect() }),
             "run" => {
                 if w[2] != "pending" {
                     v.push(Action::Run { a: n(1), r: rout(w[2]) })
